@@ -61,6 +61,7 @@ class P(Prop):
             inp["numeric_sts"] = rng.random() < 0.4
             inp["matrix_api"] = rng.random() < 0.35       # statuses and sharing modes through the [N x n] matrix setters
             inp["int_lsm"] = rng.random() < 0.3           # 0/1 sharing modes as integer arrays
+            inp["unset_balancing_input"] = rng.random() < 0.5   # units balancing throughout: input never assigned
             for d, ci in zip(plant["comps"], inp["comps"]):
                 if pg.kind_of(d["cls"]) in ("PtiPto", "Storage") and not any(ci["pin"]):
                     ci["set"] = rng.choice(["input", "from_output"])
@@ -194,6 +195,9 @@ class P(Prop):
             t.append("breaker status as numeric 0/1 matrix")
         if inp.get("int_lsm"):
             t.append("0/1 sharing modes as integer arrays")
+        if inp.get("unset_balancing_input") and any(pg.kind_of(d["cls"]) in ("Storage", "PtiPto") and not any(ci["lsm"]) and not any(ci["pin"])
+                                                    for d, ci in zip(plant["comps"], inp["comps"])):
+            t.append("input of a throughout-balancing unit never assigned" + (" (single step)" if inp["n"] == 1 else ""))
         if any(d.get("bat", {}).get("pack_factor", 1) != 1 for d in plant["comps"] if d["cls"] == "battery_sys"):
             t.append("battery pack power unlike its converter rating")
         if case.get("inp2") and "second" in obs:
